@@ -154,7 +154,14 @@ type Step struct {
 	Work *Tree `json:"-"`
 }
 
+type CSPair struct {
+	K   int  `json:"k"`
+	V   int  `json:"v"`
+	Del bool `json:"del"`
+}
+
 type Args struct {
+	CS   []CSPair `json:"cs"`
 	K    int   `json:"k"`
 	V    int   `json:"v"`
 	T    int64 `json:"t"`
@@ -171,6 +178,10 @@ type Ret struct {
 	Ver   int64           `json:"ver"`
 	TreeJ json.RawMessage `json:"tree"`
 	Tree  *Tree           `json:"-"`
+	CS    []CSPair        `json:"cs"`
+	NF    bool            `json:"nf"`
+	Pred  int64           `json:"pred"`
+	Dirty bool            `json:"dirty"`
 }
 
 type Behaviour struct {
@@ -245,6 +256,23 @@ func (b *Behaviour) Summary() string {
 				fmt.Fprintf(&sb, "save=%d(noop)", s.Ret.Ver)
 			} else {
 				fmt.Fprintf(&sb, "save=%d", s.Ret.Ver)
+			}
+		case "savecs":
+			sb.WriteString("savecs[")
+			for j, c := range s.Args.CS {
+				if j > 0 {
+					sb.WriteString(",")
+				}
+				if c.Del {
+					fmt.Fprintf(&sb, "del %d", c.K)
+				} else {
+					fmt.Fprintf(&sb, "%d=%d", c.K, c.V)
+				}
+			}
+			if s.Ret.Err {
+				sb.WriteString("]!err")
+			} else {
+				fmt.Fprintf(&sb, "]=%d", s.Ret.Ver)
 			}
 		case "reopen":
 			fmt.Fprintf(&sb, "reopen(fast=%v)", s.Args.Fast)
